@@ -50,6 +50,7 @@ def run(tier, seed, replay=None):
     else:
         progs += bg.systematic(by_cls)
         progs += bg.simple_command_orders(by_cls, rby_cls)
+        progs += bg.compound_redirects(by_cls, rby_cls)
         n_rand, depth = (1500, 5) if tier == "quick" else (30000, 9)
         for i in range(n_rand):
             progs.append(bg.rand_prog(rng, rng.randint(1, depth), cmds, redirs))
